@@ -196,6 +196,13 @@ static const struct { const char *name, *decl, *body; } CHURN[] = {
     { "union_holding_array", "union V {\n  Many { xs: array<string> },\n  One { x: string }\n}\n", "let v: V = V.Many { xs: [(int_to_string i), \"q\"] }\n        match v {\n            Many(mm) => { set acc (+ acc (array_length mm.xs)) }\n            One(o) => { set acc (+ acc (str_length o.x)) }\n        }" },
     { "break_with_temporaries", "", "let mut k: int = 0\n        while (< k 5) {\n            let t: string = (+ (int_to_string i) (int_to_string k))\n            if (== k 2) { break }\n            set acc (+ acc (str_length t))\n            set k (+ k 1)\n        }" },
     { "string_256_boundary", "fn rep(n: int) -> string {\n    let mut s: string = \"\"\n    let mut k: int = 0\n    while (< k n) {\n        set s (+ s \"r\")\n        set k (+ k 1)\n    }\n    return s\n}\n", "let s: string = (rep (+ 250 (% i 12)))\n        set acc (+ acc (str_length s))" },
+    { "substring_whole_string", "fn whole(s: string) -> string { return (str_substring s 0 (str_length s)) }\n",
+      "let s: string = (+ \"ab\" (int_to_string i))\n        let t: string = (str_substring s 0 (str_length s))\n        let u: string = (whole (+ s \"!\"))\n        set acc (+ acc (+ (str_length t) (str_length u)))" },
+    { "builtins_that_may_return_their_argument", "", "let s: string = (+ \"q\" (int_to_string i))\n        let a: array<string> = [s, \"z\"]\n        let e: array<string> = []\n        let c1: string = (str_concat s \"\")\n        let c2: string = (+ \"\" s)\n        let a2: array<string> = (+ a e)\n        let a3: array<string> = (array_slice a 0 (array_length a))\n        set acc (+ acc (+ (+ (str_length c1) (str_length c2)) (+ (array_length a2) (array_length a3))))" },
+    { "hashmap_rehash", "", "let h: HashMap<string, string> = (map_new)\n        let mut k: int = 0\n        while (< k 30) {\n            (map_put h (+ (int_to_string i) (+ \":\" (int_to_string k))) (+ \"v\" (int_to_string (+ i k))))\n            set k (+ k 1)\n        }\n        (map_put h (+ (int_to_string i) \":3\") \"again\")\n        (map_delete h (+ (int_to_string i) \":4\"))\n        set acc (+ acc (map_size h))" },
+    { "trap_with_heap_operands_popped", "", "let units: array<string> = [(int_to_string i), \"k\"]\n        let sfx: string = (+ \"s\" (int_to_string i))\n        if (== i 7) {\n            (println (+ (at units 9) sfx))\n        }\n        set acc (+ acc (str_length sfx))" },
+    { "trap_in_callee_with_live_frames", "fn pick2(a: array<string>, n: int, pre: string) -> string {\n    let t: string = (+ pre (at a n))\n    return t\n}\n", "let a: array<string> = [(int_to_string i), \"k\"]\n        let r: string = (pick2 a (% i 9) (+ \"p\" (int_to_string i)))\n        set acc (+ acc (str_length r))" },
+    { "map_get_missing_then_use", "", "let h: HashMap<string, string> = (map_new)\n        (map_put h \"a\" (int_to_string i))\n        let v: string = (map_get h (+ \"a\" (int_to_string (% i 3))))\n        set acc (+ acc (map_size h))" },
     { "map_string_values", "", "let h: HashMap<string, string> = (map_new)\n        (map_put h \"k\" (int_to_string i))\n        (map_put h \"k\" (+ \"w\" (int_to_string i)))\n        set acc (+ acc (str_length (map_get h \"k\")))" },
 };
 #define NCHURN ((int)(sizeof CHURN / sizeof CHURN[0]))
@@ -241,12 +248,14 @@ static bool plan_parse(HPlan *P, uint64_t *seed, const char *path) {
     fclose(f);
     return true;
 }
+/* short and long run of a churn template; 31 map operations per iteration: a leak makes the VM's string interning quadratic, so that one keeps its long run short */
+static void churn_iterations(int t, int its[2]) { its[0] = 40; its[1] = 400; if (strstr(CHURN[t].name, "rehash")) { its[0] = 8; its[1] = 60; } }
 static void fam_prepare(uint64_t seed, const RunOpts *o) {
     static HPlan P; uint64_t s = seed;
     if (o->planfile) { if (!plan_parse(&P, &s, o->planfile)) return; } else plan_gen(&P, seed, o);
     Buf src = {0};
     if (P.mode == 0) { gen_program(P.pseed, &src); prog_get((char *)src.d); }
-    else if (P.mode == 2) { gen_churn(P.churn, 40, &src); prog_get((char *)src.d); src.len = 0; gen_churn(P.churn, 400, &src); prog_get((char *)src.d); }
+    else if (P.mode == 2) { int its[2]; churn_iterations(P.churn, its); gen_churn(P.churn, its[0], &src); prog_get((char *)src.d); src.len = 0; gen_churn(P.churn, its[1], &src); prog_get((char *)src.d); }
     buf_free(&src);
 }
 
@@ -294,13 +303,17 @@ static void fam_run(uint64_t seed, const RunOpts *o, Result *r) {
         probe(r, "generated_programs_run", 1);
         if (v.finished && WIFEXITED(v.status) && WEXITSTATUS(v.status) != 0) probe(r, "generated_runtime_error", 1);
     } else {
-        uint64_t obj[2] = { 0, 0 }; int its[2] = { 40, 400 };
+        uint64_t obj[2] = { 0, 0 }; int its[2]; churn_iterations(P.churn, its);
         for (int j = 0; j < 2; j++) {
             src.len = 0; gen_churn(P.churn, its[j], &src);
             snprintf(key, sizeof key, "g%016llx", (unsigned long long)fnv64((char *)src.d));
             Prog *pg = prog_lookup(key);
             if (!pg || !pg->ok) { strcpy(r->verdict, "skip"); buf_printf(&r->detail, "churn template %s rejected by the compiler", CHURN[P.churn].name); buf_free(&src); return; }
             VmOut v = run_vm(pg->d, pg->n);
+            /* templates named trap_* end in a run-time error by design: what is judged is the audit up to the trap and the unwinding in
+             * vm_destroy (double release, use after free), not the growth of the live-object count */
+            bool traps = strncmp(CHURN[P.churn].name, "trap_", 5) == 0;
+            if (traps && v.finished && WIFEXITED(v.status) && WEXITSTATUS(v.status) == 1) { obj[0] = obj[1] = 0; continue; }
             if (!v.finished || v.status != 0) { strcpy(r->verdict, "skip"); buf_printf(&r->detail, "churn template %s did not run to completion (status 0x%x)", CHURN[P.churn].name, v.status); buf_free(&src); return; }
             obj[j] = v.objects;
         }
